@@ -25,6 +25,7 @@ var (
 	flagProp    = flag.String("prop", "", "property id to decide (e.g. C02); empty = all contracts")
 	flagTier    = flag.String("tier", "quick", "quick|thorough")
 	flagFn      = flag.String("fn", "", "only functions whose key contains this substring")
+	flagFiles   = flag.String("files", "", "only functions defined in these source files (comma-separated path suffixes); whole-program structural checks still run. Contracts are modular, so after a change to some files only the functions in those files have different obligations")
 	flagDump    = flag.String("dump", "", "directory to keep the generated SMT scripts in")
 	flagVerbose = flag.Bool("v", false, "verbose")
 	flagNoEvid  = flag.Bool("no-evidence", false, "do not write the evidence file")
@@ -204,6 +205,9 @@ func run() int {
 		work = work[1:]
 		c := db.Contracts[k]
 		fn := funcIndex[k]
+		if (fn == nil && len(c.SpecVars) > 0 || strings.Contains(k, ".speclemma.")) && *flagFiles != "" {
+			continue
+		}
 		if fn == nil && len(c.SpecVars) > 0 || strings.Contains(k, ".speclemma.") {
 			// statement-level lemma: no code
 			pkgPath := k[:strings.Index(k, ".speclemma.")]
@@ -232,6 +236,18 @@ func run() int {
 		if fn == nil {
 			rep.Missing = append(rep.Missing, MissingFn{Key: k, Props: c.propList(), File: c.File})
 			continue
+		}
+		if *flagFiles != "" {
+			in := false
+			fname := l.prog.Fset.Position(fn.Pos()).Filename
+			for _, suf := range strings.Split(*flagFiles, ",") {
+				if suf = strings.TrimSpace(suf); suf != "" && strings.HasSuffix(fname, suf) {
+					in = true
+				}
+			}
+			if !in {
+				continue
+			}
 		}
 		ex := &Exec{callCovers: tier == "thorough" || os.Getenv("GOVC_CALL_COVERS") != "", prog: l.prog, db: db, fset: l.prog.Fset, maxPaths: 4000, loopCache: map[*ssa.Function]*LoopInfo{}, usedUnknown: map[string]bool{}, usedContracts: map[string]bool{}, prop: prop, siteOrd: map[*ssa.Function]map[ssa.Instruction]int{}, trackCache: map[*Contract]map[string]bool{}}
 		if c.PathCap > 0 {
